@@ -142,22 +142,31 @@ def r2_outer(ctx):
     couts = eng.run(clo)
     ctx.touch(clo)
     rets = [o for o in couts if o.kind == 'return']
-    okc = False
+    # values the task captured, as the parent had them when it built the closure (a hoisted `depth - 1` or next player is resolved here)
+    snapsets = []
+    for o in outs:
+        for e in o.events:
+            if e[0] == 'closure' and e[1] == clo and e[2] not in snapsets:
+                snapsets.append(e[2])
+    okc = bool(rets) and bool(snapsets)
     detail = None
-    for o in rets:
-        calls = [e for e in o.events if e[0] == 'call' and (e[1] in (INNER, MG + '::new') or e[1].startswith(CHESSMOVE))]
-        names = [e[1].rsplit('::', 1)[-1] for e in calls]
-        rec = [e for e in calls if e[1] == INNER]
-        detail = names
-        if len(rec) == 1 and names.index('apply') < names.index('count_positions_inner'):
-            a = rec[0][2]
-            d_ok = a[0][0] == 'bin' and a[0][1] == 'Sub' and a[0][3] == C(1) and 'upvar1' in show(a[0])
-            board_local = a[1][0] == 'ref' and a[1][1][0] == 'L'
-            col_ok = 'upvar2' in show(a[2])
-            gen_local = a[3][0] == 'ref' and a[3][1][0] == 'L'
-            ap = [e for e in calls if e[1].endswith('::apply')][0]
-            okc = d_ok and board_local and col_ok and gen_local and ap[2][0] == ('ref', ('der', ('p', 2))) and ap[2][1] == a[1] and \
-                o.value == ('call', INNER, rec[0][2], rec[0][3])
+    for snaps in snapsets:
+        for o in rets:
+            calls = [e for e in o.events if e[0] == 'call' and (e[1] in (INNER, MG + '::new') or e[1].startswith(CHESSMOVE))]
+            names = [e[1].rsplit('::', 1)[-1] for e in calls]
+            rec = [e for e in calls if e[1] == INNER]
+            detail = names
+            ok1 = False
+            if len(rec) == 1 and 'apply' in names and names.index('apply') < names.index('count_positions_inner') and 'new' in names:
+                a = tuple(subst_upvars(x, snaps) for x in rec[0][2])
+                d_ok = a[0] == ('bin', 'Sub', ('p', 2), C(1))
+                board_local = a[1][0] == 'ref' and a[1][1][0] == 'L'
+                col_ok = a[2] == ('call', OPP, (('p', 4),), None)
+                gen_local = a[3][0] == 'ref' and a[3][1][0] == 'L'
+                ap = [e for e in calls if e[1].endswith('::apply')][0]
+                ok1 = d_ok and board_local and col_ok and gen_local and strip_refs_t(ap[2][0]) == ('p', 2) and ap[2][1] == rec[0][2][1] and \
+                    o.value == ('call', INNER, rec[0][2], rec[0][3])
+            okc = okc and ok1
     ctx.ob(rule, clo, 'task: clone board; apply; inner(depth-1, clone, next_player, fresh generator)', okc, found=detail,
            expected='local_board = board.clone(); apply; count_positions_inner(depth - 1, &mut local_board, next_player, &mut MoveGenerator::new())')
     # next_player = opposite(player): value captured as upvar2
